@@ -18,3 +18,35 @@ prop("C06",
      trusted=["history induction (DESIGN 3.3): invariant established by __init__ and preserved by every public method => holds after every finite history",
               "MemoryCache._estimate_object_size returns a non-negative int (assumed contract)"],
      )
+
+SBB = "storage_base:StorageBackendBase."
+STORAGE_BASE_FUNCS = [SBB + n for n in ("is_memoized", "is_all_memoized", "get_mementos", "read_result", "memoize", "forget_call", "forget_everything",
+                                        "forget_function", "list_functions", "list_mementos", "read_metadata", "write_metadata")]
+
+prop("C05",
+     modules=["storage"],
+     functions=MEMORY_CACHE_FUNCS + STORAGE_BASE_FUNCS,
+     design_ref="DESIGN.md section 6, C05",
+     trusted=["history induction (DESIGN 3.3) over the per-operation refinement contracts",
+              "interface contracts of MetadataSource / DataSource / Codec are assumed at this level (abstract methods)"],
+     assumptions=["qualified names contain no '/', so 'qn/hash' keys the dictionary of (function, argument hash) pairs",
+                  "no I/O fault occurs inside an operation (faults are C08's subject): after an OSError the coherence invariant is not claimed",
+                  "read_result is called with the memento currently stored for that call"],
+     )
+
+prop("C07",
+     modules=["codec"],
+     functions=["storage_base:Codec.BlobStrategy.store", "storage_base:Codec.NullStrategy.store"],
+     design_ref="DESIGN.md section 6, C07",
+     trusted=["SHA-256 treated as injective", "DataSource interface contract (versions immutable, output creates a fresh version) is assumed; _FilesystemDataSource is not proved against it"],
+     assumptions=["an override key does not start with 'c/' (otherwise a user-chosen key aliases a content address)"],
+     )
+
+prop("C19",
+     modules=["nullbackends"],
+     functions=[SBB + n for n in ("memoize", "forget_call", "forget_everything", "forget_function", "write_metadata", "is_memoized", "read_result", "get_mementos")]
+     + ["storage_null:NullStorageBackend." + n for n in ("get_mementos", "is_memoized", "is_all_memoized", "list_functions", "read_result", "read_metadata", "memoize")]
+     + ["runner_null:NullRunnerBackend.batch_run", "storage:StorageBackend.__init__"],
+     design_ref="DESIGN.md section 6, C19",
+     trusted=["the ghost write counters of the abstract MetadataSource / DataSource count every mutating interface method (interface contract)"],
+     )
